@@ -296,6 +296,20 @@ reg(
 )
 
 
+reg(
+    "C17",
+    "translation_validation",
+    "The pure rank/select helpers under the YAML position tables (AdvancePositions::{advance_rank1, ib_rank1, ib_select1_with_state, advance_select1} and the sibling "
+    "copies CompactEndPositions::{advance_rank1, ib_select1_with_state}) are evaluated from MIR on structs assembled from the documented field invariants, for every bitmap of a "
+    "bounded family (0-3 words of boundary patterns; longer all-ones / alternating bitmaps that cross the select sample rate) and every argument up to two past the end, against "
+    "rank/select defined by counting bits; both in-word select paths (PDEP and portable) are exercised. Sibling copies therefore agree. The sequential-cursor history "
+    "independence of get() is not decided.",
+    [only_cfgs(_lazy("ranktab", "rule_ranktab"), ["cli"])],
+    quick=["cli"],
+    technique="bounded-exhaustive finite-domain evaluation of helper MIR vs bit-counting definitions (sibling agreement)",
+)
+
+
 def run(pid, tier, only=None, replay=None):
     if pid not in REGISTRY:
         print("property %s is not claimed (see MANIFEST.not_applicable)" % pid)
